@@ -786,7 +786,8 @@ class Monitor:
 				else:
 					nb = len(body)
 				usbits = body[:nb] if nb >= 0 else body
-			for e in sorted(exps, key=lambda x: x.optional):  # definite expectations first
+			# definite expectations first; a NOPE.ind goes to a surely-suppressed burst before a "maybe"
+			for e in sorted(exps, key=lambda x: (x.optional, nope and x.suppress != "yes")):
 				if e.matched is not None or e.b.tn != d["tn"] or e.b.fn != d["fn"]:
 					continue
 				if nope:
